@@ -30,10 +30,7 @@ class ImporteeModuleCalculator:
         extended_modules = set(all_modules)
 
         for imp in imports:
-            importee = imp.importee()
-
-            if str(self._root_path) not in importee:
-                extended_modules.update(self._calculate_parent_modules(imp))
+            extended_modules.update(self._calculate_parent_modules(imp))
 
         return list(extended_modules)
 
